@@ -314,12 +314,63 @@ def _web_route_plugin() -> Any:
 
         class KeepRoute(HttpWebServerBasePlugin):
             def routes(self) -> List[Tuple[int, str]]:
-                return [(httpProtocolTypes.HTTP, r'/kept/')]
+                return [(httpProtocolTypes.HTTP, r'/kept/'), (httpProtocolTypes.HTTP, r'/big/')]
 
             def handle_request(self, request: Any) -> None:
-                self.client.queue(okResponse(content=b'kept:' + (request.path or b''), compress=False))
+                path = request.path or b''
+                if path.startswith(b'/big/'):
+                    # one reply of the proxy's own making, queued as ONE packet of the requested size
+                    n = int(path.split(b'/')[2])
+                    self.client.queue(okResponse(content=own_body(n), compress=False))
+                    return
+                self.client.queue(okResponse(content=b'kept:' + path, compress=False))
         _WEBR['cls'] = KeepRoute
     return _WEBR['cls']
+
+
+def own_body(n: int) -> bytes:
+    return (b'%07d|' * (n // 8 + 1) % tuple(range(n // 8 + 1)))[:n]
+
+
+def run_own_reply_large(case: Dict[str, Any]) -> Dict[str, Any]:
+    """A response the proxy builds itself (web route, one queued packet) of a size at / around / far beyond the send unit
+    (--max-sendbuf-size, 64 KiB by default): what the client reads is a complete response whose body has exactly the
+    announced length and the bytes the route produced - never a well-formed head followed by a short body and a close."""
+    rng = random.Random('c06o:%s:%s' % (case['seed'], case['i']))
+    flags = make_flags(['--enable-web-server'], plugins=[_web_route_plugin()], cache_key='c06:webroute')
+    shim.S.reset()
+    rig = StepRig(flags, case.get('mode', 'local'))
+    viol: List[Dict[str, Any]] = []
+    obs: Dict[str, int] = {'kind:own-reply-large': 1}
+    outc = 'error'
+    n = case['size']
+    try:
+        client = rig.add_client(case.get('transport', 'unix'), rcvbuf=8192 if case.get('reader') == 'slow' else None)
+        client.send(b'GET /big/%d HTTP/1.1\r\nHost: w.test\r\n%s\r\n' % (n, b'Connection: close\r\n' if case.get('close') else b''))
+
+        def done() -> bool:
+            ms, _e, _r = h11util.parse_responses(bytes(client.rx), [b'GET'], eof=False)
+            return bool(ms) and ms[0]['complete']
+        rig.until(lambda: client.ended or done(), [client], idle_timeout=0.6)
+        rig.settle([client], quiet=6)
+        ms, err, rest = h11util.parse_responses(bytes(client.rx), [b'GET'], eof=client.eof)
+        detail = {'size': n, 'received': len(client.rx), 'ended': client.ended, 'err': err, 'head': bytes(client.rx[:160])}
+        if err or rest or len(ms) != 1 or not ms[0]['complete']:
+            viol.append({'key': 'web|own-reply|partial-or-malformed', 'detail': detail})
+        elif ms[0]['code'] != 200 or ms[0]['body'] != own_body(n):
+            viol.append({'key': 'web|own-reply|body-differs', 'detail': dict(detail, diff=monitors.diff_streams(own_body(n), ms[0]['body']))})
+        else:
+            outc = 'served'
+            obs['own_replies_checked'] = 1
+            if n > 65536:
+                obs['own_replies_beyond_send_unit_checked'] = 1
+    except LoopDied as e:
+        viol.append({'key': 'web|own-reply|loop-died:%s' % e.where(), 'detail': {'tb': e.tb[-900:]}})
+    finally:
+        rig.close()
+    obs['outcome:' + outc] = 1
+    return {'viol': viol, 'nontrivial': True, 'sig': 'orl/%s/%s/%s/%s' % (n, case.get('mode'), case.get('transport'), case.get('reader')), 'obs': obs,
+            'sets': {'outcomes': {outc}}, 'sample': {'case': case}}
 
 
 def run_web_followup_rejected(case: Dict[str, Any]) -> Dict[str, Any]:
@@ -383,6 +434,8 @@ def run_web_followup_rejected(case: Dict[str, Any]) -> Dict[str, Any]:
 def run_case(case: Dict[str, Any]) -> Dict[str, Any]:
     if case.get('kind') == 'web-followup-rejected':
         return run_web_followup_rejected(case)
+    if case.get('kind') == 'own-reply-large':
+        return run_own_reply_large(case)
     if case.get('kind') == 'builder':
         return run_builder_case(case)
     if case.get('kind') == 'rejected-then-more':
@@ -565,6 +618,9 @@ def cases(tier: str, seed: int):
         yield mk(kind='rejected-then-more', garbage=garbage, size=[1000, 200000][k % 2], mid_response=True, mode='local' if k % 3 else 'remote')
     for k in range(40 if tier == 'quick' else 600):
         yield mk(kind='web-followup-rejected', packing=['separate', 'concatenated'][k % 2], mode='local' if k % 3 else 'remote', transport=['unix', 'tcp'][(k // 2) % 2])
+    for k, size in enumerate([1000, 65336, 65400, 65535, 65536, 65537, 70000, 131072, 200000, 1000000] * (2 if tier == 'quick' else 20)):
+        yield mk(kind='own-reply-large', size=size, mode='local' if (k // 10 + k) % 3 else 'remote', transport=['unix', 'tcp'][(k // 10) % 2],
+                 reader=['eager', 'slow'][(k // 10 + k) % 2], close=bool(k % 4 == 0))
     for a in range(11):
         for b2 in range(11):
             for shape in (['cl-cl'] if tier == 'quick' and (a + b2) % 3 else ['cl-cl', 'triple']):
@@ -582,7 +638,7 @@ def cases(tier: str, seed: int):
 def floors(tier: str) -> Dict[str, int]:
     return {'builder:L2': 300, 'builder:L7': 300, 'builder:L8': 300,'outcome:rejected': 300, 'outcome:waiting': 100, 'outcome:closed-silently': 5, 'kind:trunc': 300,
             'kind:mutate': 200, 'kind:random': 200, 'kind:nonutf8': 50, 'distinct:outcomes': 5,
-            'kind:dup-framing': 150, 'nothing_forwarded_after_rejection': 6, 'mid_response_followups_checked': 6, 'web_followup_rejections_checked': 25}
+            'kind:dup-framing': 150, 'nothing_forwarded_after_rejection': 6, 'mid_response_followups_checked': 6, 'web_followup_rejections_checked': 25, 'own_replies_beyond_send_unit_checked': 8}
 
 
 if __name__ == '__main__':
